@@ -89,7 +89,10 @@ def mintCoin (b : Bank) (d : String) (n : Nat) : R Bank :=
 def burnCoin (b : Bank) (d : String) (n : Nat) : R Bank :=
   match subCoin b moduleAcct d n with
   | .error f => .error f
-  | .ok b1 => if n = 0 then .ok b1 else .ok (setSupply b1 d (b1.supply d - n))
+  | .ok b1 =>
+    if n = 0 then .ok b1
+    else if b1.supply d < n then .error .panic      -- `Coin.Sub` panics on a negative result
+    else .ok (setSupply b1 d (b1.supply d - n))
 
 /-- `SendCoinsFromModuleToAccount(ethbridge, dst, [coin])`: blocked recipients are refused -/
 def sendFromModule (b : Bank) (dst : Nat) (d : String) (n : Nat) : R Bank :=
